@@ -19,7 +19,10 @@ Open Scope N_scope.
 Open Scope list_scope.
 
 Definition host_nonempty (hp hpo : list N -> result host) : Prop :=
-  (forall s, hp s <> Ok (HDomain [])) /\ (forall s, hpo s = Ok (HDomain []) -> s = []).
+  (forall s, hp s <> Ok (HDomain [])) /\ (forall s, usv_list s -> hpo s = Ok (HDomain []) -> s = []).
+
+Lemma usv_nfirstn n l : usv_list l -> usv_list (nfirstn n l).
+Proof. intros H. rewrite <- (nfirstn_nskipn n l) in H. apply usv_app in H. tauto. Qed.
 
 Lemma host_eq_dec_nil (h : host) : {h = HDomain []} + {h <> HDomain []}.
 Proof. destruct h as [[|c d]|a|ps]; [left; reflexivity | right; discriminate | right; discriminate | right; discriminate]. Qed.
@@ -178,11 +181,11 @@ Qed.
 Lemma nfirstn_pos_cons i c (r : list N) : i <> 0 -> nfirstn i (c :: r) <> [].
 Proof. intros Hi. unfold nfirstn. destruct (N.to_nat i) eqn:E; [lia|]. cbn [firstn]. discriminate. Qed.
 
-Theorem set_host_some_Canon u x u' s : host_nonempty hp hpo -> Canon u ->
+Theorem set_host_some_Canon u x u' s : host_nonempty hp hpo -> Canon u -> usv_list x ->
   known_step2 dbg hp hpo hd u (OSetHost (Some x)) = false ->
   set_host dbg hp hpo hd u (Some x) = Some (u', s) -> nlen (ser u') <= U32_MAX_P -> Canon u'.
 Proof.
-  intros [HN1 HN2] C Hk. unfold known_step2, known_step in Hk. rewrite !orb_false_iff in Hk.
+  intros [HN1 HN2] C Hx Hk. unfold known_step2, known_step in Hk. rewrite !orb_false_iff in Hk.
   destruct Hk as [[[[[K1 _] _] _] K4] _]. unfold Known_F_C03_5 in K1. cbn [is_host_or_path_op] in K1. rewrite andb_true_r in K1.
   unfold set_host. destruct (Canon_classes u C) as [Hc | [Hm | (st & sch & ui & pt & Hh)]].
   - rewrite Hc. cbn [bindo]. intros E _. inversion E; subst. exact C.
@@ -193,6 +196,10 @@ Proof.
     { intros E _. inversion E; subst. exact C. }
     set (sub := if (match x with 91 :: _ => true | _ => false end) && ends_with_byte 93 x then Some x
                 else match find_byte 58 x with Some 0 => None | Some i => Some (nfirstn i x) | None => Some x end).
+    assert (forall hsub, sub = Some hsub -> usv_list hsub) as Husub.
+    { intros hsub E. unfold sub in E.
+      destruct ((match x with 91 :: _ => true | _ => false end) && ends_with_byte 93 x); [inversion E; subst; exact Hx|].
+      destruct (find_byte 58 x) as [[|i]|]; inversion E; subst; [apply usv_nfirstn|]; exact Hx. }
     assert (forall hsub, sub = Some hsub -> hsub = [] -> x = []) as Hsub.
     { intros hsub E En. subst hsub. unfold sub in E. destruct x as [|c r]; [reflexivity|]. exfalso.
       destruct ((match c :: r with 91 :: _ => true | _ => false end) && ends_with_byte 93 (c :: r)); [discriminate E|].
@@ -210,7 +217,7 @@ Proof.
       * left. split; [reflexivity|]. destruct (st_is_special st); [exfalso; exact (HN1 _ Eh) | reflexivity].
       * apply (hpx_host_ok hp hpo hd HRT HAb st hsub h'); [|exact Hne]. unfold hpx. destruct (st_is_special st); exact Eh.
     + intros ->. assert (x = []) as Ex.
-      { apply (Hsub hsub eq_refl). destruct (st_is_special st); [exfalso; exact (HN1 _ Eh) | exact (HN2 _ Eh)]. }
+      { apply (Hsub hsub eq_refl). destruct (st_is_special st); [exfalso; exact (HN1 _ Eh) | exact (HN2 _ (Husub hsub eq_refl) Eh)]. }
       subst x. unfold Known_F_C02_4 in K4. apply orb_false_iff in K4. destruct K4 as [_ K4]. cbn [andb] in K4.
       unfold has_credentials_or_port in K4. apply orb_false_iff in K4. destruct K4 as [K4a K4b].
       apply negb_false_iff in K4a. apply N.eqb_eq in K4a. split; [exact (Hui K4a)|].
